@@ -2,7 +2,7 @@
    the position handed to ctx.Warn is the Pos() of a node of the analysed file, hence (by wf, which the tie checks
    against an independent go/scanner pass) the start of a token of that file; the zero-value suggestion of newDeref
    never contains a nil node. *)
-From GC Require Import Base GoAst Model_Checkers Model_Checkers_Prefix Proofs_Checkers Proofs_Witnesses.
+From GC Require Import Base GoAst Model_Checkers Model_Checkers_Prefix Model_Checkers2 Proofs_Checkers Proofs_Checkers2 Proofs_Witnesses.
 
 Theorem C07_newDeref_pos_valid : forall f, wf f = true -> forall w, In w (warnings (run_newDeref f)) -> In (w_pos w) (token_starts f).
 Proof. exact (fun f W w H => cause_pos_valid f w W (newDeref_cause f w H)). Qed.
@@ -72,3 +72,89 @@ Theorem C07_prefix_zero_value_no_nil_arg_refuted : exists f, wf f = true /\ exis
 Proof. exact newDeref_prefix_render_refuted. Qed.
 Print Assumptions C07_prefix_zero_value_no_nil_arg_refuted.
 
+
+(* ---------- second batch (Model_Checkers2.v) ---------- *)
+
+Theorem C07_builtinShadowDecl_pos_valid : forall f, wf f = true -> forall w, In w (warnings (run_builtinShadowDecl f)) -> In (w_pos w) (token_starts f).
+Proof. exact (fun f W w H => cause_pos_valid f w W (builtinShadowDecl_cause f w H)). Qed.
+Print Assumptions C07_builtinShadowDecl_pos_valid.
+
+Theorem C07_defaultCaseOrder_pos_valid : forall f, wf f = true -> forall w, In w (warnings (run_defaultCaseOrder f)) -> In (w_pos w) (token_starts f).
+Proof. exact (fun f W w H => cause_pos_valid f w W (defaultCaseOrder_cause f w H)). Qed.
+Print Assumptions C07_defaultCaseOrder_pos_valid.
+
+Theorem C07_emptyFallthrough_pos_valid : forall f, wf f = true -> forall w, In w (warnings (run_emptyFallthrough f)) -> In (w_pos w) (token_starts f).
+Proof. exact (fun f W w H => cause_pos_valid f w W (emptyFallthrough_cause f w H)). Qed.
+Print Assumptions C07_emptyFallthrough_pos_valid.
+
+Theorem C07_initClause_pos_valid : forall f, wf f = true -> forall w, In w (warnings (run_initClause f)) -> In (w_pos w) (token_starts f).
+Proof. exact (fun f W w H => cause_pos_valid f w W (initClause_cause f w H)). Qed.
+Print Assumptions C07_initClause_pos_valid.
+
+Theorem C07_deferInLoop_pos_valid : forall f, wf f = true -> forall w, In w (warnings (run_deferInLoop f)) -> In (w_pos w) (token_starts f).
+Proof. exact (fun f W w H => cause_pos_valid f w W (deferInLoop_cause f w H)). Qed.
+Print Assumptions C07_deferInLoop_pos_valid.
+
+Theorem C07_paramTypeCombine_pos_valid : forall f, wf f = true -> forall w, In w (warnings (run_paramTypeCombine f)) -> In (w_pos w) (token_starts f).
+Proof. exact (fun f W w H => cause_pos_valid f w W (paramTypeCombine_cause f w H)). Qed.
+Print Assumptions C07_paramTypeCombine_pos_valid.
+
+Theorem C07_ptrToRefParam_pos_valid : forall f, wf f = true -> forall w, In w (warnings (run_ptrToRefParam f)) -> In (w_pos w) (token_starts f).
+Proof. exact (fun f W w H => cause_pos_valid f w W (ptrToRefParam_cause f w H)). Qed.
+Print Assumptions C07_ptrToRefParam_pos_valid.
+
+Theorem C07_sloppyTypeAssert_pos_valid : forall f, wf f = true -> forall w, In w (warnings (run_sloppyTypeAssert f)) -> In (w_pos w) (token_starts f).
+Proof. exact (fun f W w H => cause_pos_valid f w W (sloppyTypeAssert_cause f w H)). Qed.
+Print Assumptions C07_sloppyTypeAssert_pos_valid.
+
+Theorem C07_octalLiteral_pos_valid : forall f, wf f = true -> forall w, In w (warnings (run_octalLiteral f)) -> In (w_pos w) (token_starts f).
+Proof. exact (fun f W w H => cause_pos_valid f w W (octalLiteral_cause f w H)). Qed.
+Print Assumptions C07_octalLiteral_pos_valid.
+
+Theorem C07_hexLiteral_pos_valid : forall f, wf f = true -> forall w, In w (warnings (run_hexLiteral f)) -> In (w_pos w) (token_starts f).
+Proof. exact (fun f W w H => cause_pos_valid f w W (hexLiteral_cause f w H)). Qed.
+Print Assumptions C07_hexLiteral_pos_valid.
+
+Theorem C07_weakCond_pos_valid : forall f, wf f = true -> forall w, In w (warnings (run_weakCond f)) -> In (w_pos w) (token_starts f).
+Proof. exact (fun f W w H => cause_pos_valid f w W (weakCond_cause f w H)). Qed.
+Print Assumptions C07_weakCond_pos_valid.
+
+Theorem C07_methodExprCall_pos_valid : forall f, wf f = true -> forall w, In w (warnings (run_methodExprCall f)) -> In (w_pos w) (token_starts f).
+Proof. exact (fun f W w H => cause_pos_valid f w W (methodExprCall_cause f w H)). Qed.
+Print Assumptions C07_methodExprCall_pos_valid.
+
+Theorem C07_dupBranchBody_pos_valid : forall f, wf f = true -> forall w, In w (warnings (run_dupBranchBody f)) -> In (w_pos w) (token_starts f).
+Proof. exact (fun f W w H => cause_pos_valid f w W (dupBranchBody_cause f w H)). Qed.
+Print Assumptions C07_dupBranchBody_pos_valid.
+
+Theorem C07_exitAfterDefer_pos_valid : forall f, wf f = true -> forall w, In w (warnings (run_exitAfterDefer f)) -> In (w_pos w) (token_starts f).
+Proof. exact (fun f W w H => cause_pos_valid f w W (exitAfterDefer_cause f w H)). Qed.
+Print Assumptions C07_exitAfterDefer_pos_valid.
+
+Theorem C07_singleCaseSwitch_pos_valid : forall f, wf f = true -> forall w, In w (warnings (run_singleCaseSwitch f)) -> In (w_pos w) (token_starts f).
+Proof. exact (fun f W w H => cause_pos_valid f w W (singleCaseSwitch_cause f w H)). Qed.
+Print Assumptions C07_singleCaseSwitch_pos_valid.
+
+Theorem C07_elseif_pos_valid : forall skip_balanced f, wf f = true -> forall w, In w (warnings (run_elseif skip_balanced f)) -> In (w_pos w) (token_starts f).
+Proof. exact (fun p f W w H => cause_pos_valid f w W (elseif_cause p f w H)). Qed.
+Print Assumptions C07_elseif_pos_valid.
+
+Theorem C07_underef_pos_valid : forall skip_recv f, wf f = true -> forall w, In w (warnings (run_underef skip_recv f)) -> In (w_pos w) (token_starts f).
+Proof. exact (fun p f W w H => cause_pos_valid f w W (underef_cause p f w H)). Qed.
+Print Assumptions C07_underef_pos_valid.
+
+Theorem C07_unnamedResult_pos_valid : forall check_exported f, wf f = true -> forall w, In w (warnings (run_unnamedResult check_exported f)) -> In (w_pos w) (token_starts f).
+Proof. exact (fun p f W w H => cause_pos_valid f w W (unnamedResult_cause p f w H)). Qed.
+Print Assumptions C07_unnamedResult_pos_valid.
+
+Theorem C07_captLocal_pos_valid : forall params_only f, wf f = true -> forall w, In w (warnings (run_captLocal params_only f)) -> In (w_pos w) (token_starts f).
+Proof. exact (fun p f W w H => cause_pos_valid f w W (captLocal_cause p f w H)). Qed.
+Print Assumptions C07_captLocal_pos_valid.
+
+Theorem C07_builtinShadow_pos_valid : forall f, wf f = true -> forall w, In w (warnings (run_builtinShadow f)) -> In (w_pos w) (token_starts f).
+Proof. exact (fun f W w H => cause_pos_valid f w W (builtinShadow_cause f w H)). Qed.
+Print Assumptions C07_builtinShadow_pos_valid.
+
+Theorem C07_localDefWalker_shows_file_nodes : forall visit f w, (forall def w, In w (visit def) -> w_cause w = fst def) -> In w (warnings (run_localdef visit f)) -> In (w_cause w) (all_nodes f).
+Proof. exact (fun visit f w V H => run_localdef_cause visit f w V H). Qed.
+Print Assumptions C07_localDefWalker_shows_file_nodes.
